@@ -188,7 +188,9 @@ pub fn start_progress_watchdog(prop: &'static str, seed: u64, engine: Engine, sh
                 }
             }
             let used = (now - seen.unwrap().1) as f64 / 1e9;
-            {
+            // native engines only: valgrind serialises threads (the main thread waits for valgrind's lock whenever this
+            // thread runs, i.e. at every sample) and the interpreter samples its own carrier thread
+            if matches!(engine, Engine::Checked | Engine::Release | Engine::Asan) {
                 if let Some((since, asleep, total)) = blocked.as_mut() {
                     *total += 1;
                     if state(&task) == Some('S') {
